@@ -31,6 +31,16 @@ def cases(tier, rng):
             # a macro parameter that shadows a let (the override must not reach it), used as a qubit index and a loop count
             p["macros"].append(("msh", ["rr", "k1"], ("seq", [("gate", "H", [("q", "rr", "k1")]), ("loop", "k1", [("gate", "X", [("q", "rr", 0)])])])))
             p["body"].append(("gate", "msh", [("id", "q"), ("num", rng.choice([0, 1]))]))
+        force_ov = None
+        if i % 4 == 3 and any(l[0] == "k0" for l in p["lets"]):
+            # an alias whose bound is a let, indexed with a LITERAL, and an override that moves the bound: the literal
+            # index must follow the rebuilt alias in every order of the passes
+            k0 = dict(p["lets"])["k0"]
+            p["maps"].append(("ad", "q", ("slice", "k0", p["n"], None)))
+            p["maps"].append(("ae", "ad", ("slice", 0, 1, None)))
+            p["body"].append(("gate", "X", [("q", "ad", 0)]))
+            p["body"].append(("gate", "H", [("q", "ae", 0)]))
+            force_ov = {"k0": 1 - k0}
         text = ref.to_text(p)
         try:
             ref.static_valid(p)
@@ -46,6 +56,13 @@ def cases(tier, rng):
                 ref.sem(p, overrides=ov)
             except ref.RefError:
                 ov = None
+        if force_ov is not None:
+            try:
+                ref.static_valid(p, overrides=force_ov)
+                ref.sem(p, overrides=force_ov)
+                ov = force_ov
+            except ref.RefError:
+                pass
         yield text + repr(ov), {"prog": p, "text": text, "ov": ov}, ("macro" in text or "subcircuit" in text)
 
 
